@@ -124,6 +124,11 @@ pub struct ReaderScript {
     /// Ctrl-D, a FIFO whose writer stays around): being polled after `Ok(0)` is the simulated hang
     #[serde(default, skip_serializing_if = "std::ops::Not::not")]
     pub blocks_after_eof: bool,
+    /// the data is all there is for now, but the stream is not over: a read beyond it blocks for ever (a peer
+    /// that waits for an answer). Only meaningful with an input cap below the data length: the library then
+    /// has no business reading on
+    #[serde(default, skip_serializing_if = "std::ops::Not::not")]
+    pub peer_waits: bool,
 }
 
 impl ReaderScript {
@@ -168,6 +173,8 @@ pub struct ReaderState {
     pub nonsticky_done: bool,
     /// the natural end of the data has been reported with `Ok(0)`
     pub eof_reported: bool,
+    /// a fault other than `Interrupted` has been returned
+    pub hard_error_reported: bool,
     pub ended: bool,
     pub post_end_reads: u64,
     pub endless_pos: usize,
@@ -259,6 +266,20 @@ impl io::Read for SimReader {
                 "reader polled again after it had reported its end with Ok(0): this reader blocks there for ever".to_string(),
             ));
         }
+        // ... and likewise after a hard error (the peer is gone or waits; an `Interrupted` read is retried)
+        if st.script.blocks_after_eof && st.hard_error_reported {
+            drop(guard);
+            std::panic::panic_any(SimMarker::Liveness(
+                "reader polled again after it had returned a hard error: this reader blocks there for ever".to_string(),
+            ));
+        }
+        // a peer that has sent what it had and waits: no end of input, the next read blocks for ever
+        if st.script.peer_waits && st.pos >= st.script.truncate_at.map_or(st.data.len(), |t| t.min(st.data.len())) {
+            drop(guard);
+            std::panic::panic_any(SimMarker::Liveness(
+                "reader polled for more than the peer has sent (it waits for an answer and sends nothing more)".to_string(),
+            ));
+        }
         if let Some(k) = st.sticky {
             log(st, buf.len(), -1 - (k as i64));
             return Err(io::Error::new(k.to_io(), SIM_ERR_MSG));
@@ -300,6 +321,9 @@ impl io::Read for SimReader {
                         st.ended = true;
                     }
                     After::ThenResume => {}
+                }
+                if f.kind != ErrKind::Interrupted {
+                    st.hard_error_reported = true;
                 }
                 log(st, buf.len(), -1 - (f.kind as i64));
                 return Err(io::Error::new(f.kind.to_io(), SIM_ERR_MSG));
